@@ -11,6 +11,10 @@
 import TypedpyModel.Lemmas.SchemaAdmits
 import TypedpyModel.Lemmas.SchemaWf
 import TypedpyModel.Lemmas.SchemaExact
+import TypedpyModel.Lemmas.SchemaDialect
+import TypedpyModel.Lemmas.SchemaDefs
+import TypedpyModel.Lemmas.SchemaRename
+import TypedpyModel.Lemmas.SchemaExactClass
 namespace Typedpy.C08
 open Typedpy Typedpy.Sch
 
@@ -30,11 +34,25 @@ def C08_wellformed_statement : Prop :=
   ∀ cls : FieldDecl, raises cls = false →
     wfDocument (dialectFix (toSchema cls).1) (fixDefs (toSchema cls).2) = true
 
+/-- **the dialect rewrite is exactly the emission with the two draft-4 spellings** — for EVERY
+    class declaration (any nesting, defaults, field wrappers, raising kinds included): the schema
+    and the definitions `structure_to_schema` returns, rewritten by the documented two-rule
+    `dialectFix` (`multiplesOf` → `multipleOf`, `not: [..]` → `not: {anyOf: [..]}`, at schema
+    positions only), are `classSchema true` / `classDefs true`, the objects the lemmas speak about. -/
+theorem dialect_fix_is_emit_true (cls : FieldDecl) :
+    dialectFix (toSchema cls).1 = classSchema true cls
+    ∧ fixDefs (toSchema cls).2 = classDefs true cls
+    ∧ fixedPtrDefs cls = ptrDefs (classDefs true cls) :=
+  ⟨c08_fix_classSchema cls, c08_fix_classDefs cls, c08_fixedPtrDefs_eq cls⟩
+
+/-- field level of `dialect_fix_is_emit_true`, every declaration -/
+theorem dialect_fix_field (f : FieldDecl) : dialectFix (emit false f) = emit true f := c08_fix_emit f
+
 /-- **schema_admits (partial).**  For every class declaration in the fragment (unbounded nesting),
     every regular-expression oracle pair with `match ⇒ search`, every instance in the region (deeply
     well-formed, outside the known-finding regions) and every fuel that covers the nesting of class
-    references: the emitted schema (with the two draft-4 spellings) accepts the serialization.
-    `ClassRefsFaithful` says that no two different classes share a `__name__`. -/
+    references: the schema `structure_to_schema` returns, after the dialect rewrite, accepts the
+    serialization.  `ClassRefsFaithful` says that no two different classes share a `__name__`. -/
 theorem schema_admits_partial (O : Oracles) (S : String → String → Bool)
     (hS : ∀ p s, O.reMatch p s = true → S p s = true) (cls : FieldDecl) (x j : PyVal) (n : Nat)
     (hfrag : inSchemaFragment cls = true)
@@ -42,8 +60,32 @@ theorem schema_admits_partial (O : Oracles) (S : String → String → Bool)
     (hn : refDepth cls ≤ n)
     (hreg : inAdmitRegion O cls x = true)
     (hser : serialize O cls x = .ok j) :
-    jsValidFuel n (fixedPtrDefs cls) S (classSchema true cls) j = true :=
-  admits_class O S hS (fixedPtrDefs cls) cls x j n hfrag hrefs hn hreg hser
+    schemaAccepts S cls n j = true := by
+  unfold schemaAccepts
+  rw [(dialect_fix_is_emit_true cls).1]
+  exact admits_class O S hS (fixedPtrDefs cls) cls x j n hfrag hrefs hn hreg hser
+
+/-- **schema_admits under a key-renaming `_serialization_mapper` (partial).**  `km` is the
+    string-valued key map of the top-level class's mapper (`mapper[key]` when it is a `str`).  Under
+    the hypotheses of `schema_admits_partial` plus the decidable `renameSafe` (the key map is
+    injective on the field names and the keys of the document, and the exported `required` is the
+    image of the required names) the schema exported WITH the mapper, after the dialect rewrite,
+    accepts the serialization written WITH the mapper. -/
+theorem schema_admits_renamed_partial (O : Oracles) (S : String → String → Bool)
+    (hS : ∀ p s, O.reMatch p s = true → S p s = true) (km : KeyMap) (cls : FieldDecl) (x j : PyVal) (n : Nat)
+    (hfrag : inSchemaFragment cls = true)
+    (hrefs : ClassRefsFaithful (fixedPtrDefs cls) cls)
+    (hn : refDepth cls ≤ n)
+    (hreg : inAdmitRegion O cls x = true)
+    (hser : serialize O cls x = .ok j)
+    (hsafe : renameSafe km cls j = true) :
+    jsValidFuel n (fixedPtrDefs cls) S (dialectFix (classSchemaM false km cls)) (renameDoc km j) = true := by
+  rw [c08_fix_classSchemaM]
+  exact c08_admits_class_renamed O S hS (fixedPtrDefs cls) km cls x j n hfrag hrefs hn hreg hser hsafe
+
+/-- the empty key map is the mapper-free class (same properties, same `required` up to order) -/
+theorem renamed_dialect_fix (km : KeyMap) (cls : FieldDecl) :
+    dialectFix (classSchemaM false km cls) = classSchemaM true km cls := c08_fix_classSchemaM km cls
 
 /-- the region of `schema_admits_partial` contains only well-formed instances of the class -/
 theorem region_instances_wellformed (O : Oracles) (cls : FieldDecl) (x : PyVal)
@@ -72,19 +114,27 @@ theorem wrapper_admits_partial (O : Oracles) (S : String → String → Bool)
   admits_wrapper O S hS D c name f v j n hcol hfrag hrefs hn hc hreg hser
 
 /-- **schema_wellformed (partial).**  For every class declaration in the well-formedness fragment
-    (unbounded nesting) whose class references are faithful, the emitted schema (with the two
-    draft-4 spellings) is a well-formed draft-4 schema: every keyword value has the type and range
-    the meta-schema demands and every `$ref` resolves in the returned definitions
-    (`refs_resolve` is the `$ref` clause of `wfDraft4`). -/
-theorem schema_wellformed_partial (cls : FieldDecl) (hfrag : inWfFragment cls = true)
-    (hrefs : ClassRefsFaithful (fixedPtrDefs cls) cls) :
-    wfDraft4 (fixedPtrDefs cls) (classSchema true cls) = true :=
-  wf_class (fixedPtrDefs cls) cls hfrag hrefs
+    (unbounded nesting; defaults that are JSON values included) the WHOLE document
+    `structure_to_schema` returns is well-formed after the dialect rewrite: the schema and every
+    definition in the definitions table satisfy the draft-4 meta-schema keyword by keyword, and every
+    `$ref` anywhere in them resolves inside the returned definitions.  No hypothesis on class names:
+    a `__name__` shared by two classes makes a definition wrong (`counterexample_name_collision`),
+    not ill-formed. -/
+theorem schema_wellformed_partial (cls : FieldDecl) (hfrag : inWfFragment cls = true) :
+    wfDocument (dialectFix (toSchema cls).1) (fixDefs (toSchema cls).2) = true :=
+  c08_wf_document_fixed cls hfrag
 
-/-- field level, any nesting depth (this is also what makes every definition well-formed: the
-    definition of a referenced class is the `classSchema` of that class) -/
+/-- **every `$ref` resolves** — for EVERY class declaration (no fragment at all): each class
+    reference at any depth points at a name that the returned definitions define -/
+theorem definitions_refs_resolve (cls : FieldDecl) : ClassRefsResolve (fixedPtrDefs cls) cls := by
+  rw [(dialect_fix_is_emit_true cls).2.2]
+  cases cls with
+  | struct c fields defaults => exact c08_resolves_defsAccP true fields []
+  | _ => trivial
+
+/-- field level, any nesting depth, against any pointer table in which the class references resolve -/
 theorem field_wellformed_partial (D : Defs) (f : FieldDecl) (hfrag : wfFragF f = true)
-    (hrefs : RefsFaithful D f) : wfDraft4 D (emit true f) = true :=
+    (hrefs : RefsResolve D f) : wfDraft4 D (emit true f) = true :=
   wf_field D f hfrag hrefs
 
 /-- **schema_exact (partial, field level).**  On the exact scalar sub-fragment (Integer with
@@ -99,6 +149,22 @@ theorem field_exact_partial (O : Oracles) (R : String → PyVal → Bool) (S : S
     (hfrag : exactScalar f = true) (h : jsV R S (emit true f) v = true) :
     ∃ y y', deser O opts ign f v = .ok y ∧ validate O f y = .ok y' :=
   exact_scalar O R S hS opts ign f v hfrag h
+
+/-- **schema_exact (partial, class level).**  For every class of `inExactFragment` (flat, over the
+    exact scalar fragment, no defaults, not a field wrapper), every JSON object (string keys) that the
+    class's schema admits — the schema `structure_to_schema` returns, after the dialect rewrite — and
+    every flag setting of the Deserializer: `Deserializer(cls).deserialize(doc)` succeeds (each member
+    passes its field, required members are present, undeclared members are allowed or absent, the
+    constructor's validation accepts).  Containers and nested classes are not covered (there the
+    schema is NOT exact: findings exact:positional-shorter, exact:map-size, exact:map-key-constraint). -/
+theorem schema_exact_class_partial (O : Oracles) (R : String → PyVal → Bool) (S : String → String → Bool)
+    (hS : ∀ p s, startAnchored p = true → S p s = true → O.reMatch p s = true)
+    (opts : DeserOpts) (cls : FieldDecl) (kvs : List (PyVal × PyVal)) (kw : List (String × PyVal))
+    (hfrag : inExactFragment cls = true) (hkw : kwOfDict kvs = some kw)
+    (h : jsV R S (dialectFix (toSchema cls).1) (.dict kvs) = true) :
+    ∃ x, deserialize O opts cls (.dict kvs) = .ok x := by
+  rw [(dialect_fix_is_emit_true cls).1] at h
+  exact c08_exact_class O R S hS opts cls kvs kw hfrag hkw h
 
 /-! ### a concrete non-trivial input meets the hypotheses -/
 
@@ -273,6 +339,91 @@ theorem fixed_multiple_of_negative :
     ∧ wfOf (flat "K" ["a"] [("a", .integer { mult := some (-2) }), ("b", .boolean)]) = true
     ∧ verdict (flat "K" ["a"] [("a", .integer { mult := some (-2) }), ("b", .boolean)])
         (.inst "K" [("a", .int (-4))]) = true := by decide
+
+def exExactCls : FieldDecl :=
+  flat "K" ["i", "s"] [("i", .integer { min := some ⟨0, 1⟩, max := some ⟨10, 1⟩, sign := .any }),
+                       ("s", .string (some 1) (some 3) none), ("b", .boolean),
+                       ("e", .enumCls "Color" ["RED", "GREEN"])]
+
+theorem schema_exact_class_example :
+    inExactFragment exExactCls = true
+    ∧ schemaAccepts exS exExactCls 0 (.dict [(.str "i", .int 3), (.str "s", .str "xy"), (.str "e", .str "RED")]) = true
+    ∧ (match deserialize exO {} exExactCls (.dict [(.str "i", .int 3), (.str "s", .str "xy"), (.str "e", .str "RED")]) with
+       | .ok _ => true | .error _ => false) = true
+    ∧ schemaAccepts exS exExactCls 0 (.dict [(.str "i", .int 11), (.str "s", .str "xy")]) = false := by decide
+
+def exDefaults : FieldDecl :=
+  flat "K" ["a"] [("a", .integer {}), ("c", .enumCls "Color" ["RED", "GREEN"]),
+                  ("l", .seqOf .list (.string none none none) {}), ("i", exInner)]
+    [("c", .enumv "Color" "GREEN"), ("l", .list [.str "x", .str "y"])]
+
+/-- defaults that are JSON values (an enum member by its name, a list of strings) are inside
+    `schema_wellformed_partial`; the definitions table (here: `Inner`) is part of the statement -/
+theorem wellformed_defaults_example :
+    inWfFragment exDefaults = true ∧ wfOf exDefaults = true
+    ∧ (toSchema exDefaults).2.length = 1 := by decide
+
+/-- finding `ill-formed:default:not-json`: a default that is a list of enum members (or a set, a
+    tuple) is written into the schema verbatim -/
+theorem counterexample_default_not_json :
+    raises (flat "K" ["a"] [("a", .integer {}), ("l", .seqOf .list (.enumCls "Color" ["RED", "GREEN"]) {})]
+      [("l", .list [.enumv "Color" "RED"])]) = false
+    ∧ wfOf (flat "K" ["a"] [("a", .integer {}), ("l", .seqOf .list (.enumCls "Color" ["RED", "GREEN"]) {})]
+      [("l", .list [.enumv "Color" "RED"])]) = false := by decide
+
+def exSetCls : FieldDecl :=
+  flat "K" ["s"] [("s", .setOf false (.string none none none) { max := some 3 }),
+                  ("u", .seqOf .list (.integer {}) { uniq := true }),
+                  ("t", .tupleOf (.enumCls "Color" ["RED", "GREEN"]) true),
+                  ("a", .setAny false {})]
+
+def exSetVal : PyVal :=
+  .inst "K" [("s", .set false [.str "a", .str "b"]), ("u", .list [.int 1, .int 2]),
+             ("t", .tuple [.enumv "Color" "RED", .enumv "Color" "GREEN"]),
+             ("a", .set false [.int 1, .str "x"])]
+
+/-- Set (typed and untyped) and `uniqueItems` on Array / Tuple are inside `schema_admits_partial` when the
+    JSON images of the elements are pairwise distinct (`distinctImages`, part of the region) -/
+theorem admits_set_unique_example :
+    inSchemaFragment exSetCls = true ∧ inAdmitRegion exO exSetCls exSetVal = true
+    ∧ (match serialize exO exSetCls exSetVal with
+       | .ok j => schemaAccepts exS exSetCls 0 j
+       | .error _ => false) = true := by decide
+
+/-- finding `admits:uniqueItems`: a tuple and a list are different for Python and have one JSON
+    image; the instance is well-formed, outside the region, and its serialization is rejected -/
+theorem counterexample_unique_items :
+    wellFormed anyO (flat "K" ["u"] [("u", .seqAny .list { uniq := true }), ("b", .boolean)])
+      (.inst "K" [("u", .list [.tuple [.int 1], .list [.int 1]])]) = true
+    ∧ inAdmitRegion anyO (flat "K" ["u"] [("u", .seqAny .list { uniq := true }), ("b", .boolean)])
+      (.inst "K" [("u", .list [.tuple [.int 1], .list [.int 1]])]) = false
+    ∧ verdict (flat "K" ["u"] [("u", .seqAny .list { uniq := true }), ("b", .boolean)])
+      (.inst "K" [("u", .list [.tuple [.int 1], .list [.int 1]])]) = false := by decide
+def exKm : KeyMap := [("a", "b"), ("i", "inner"), ("t", "T.t")]
+
+/-- a swap-free rename including one onto a dotted key, on the class of `schema_admits_example` -/
+theorem admits_renamed_example :
+    (match serialize exO exCls exVal with
+     | .ok j => renameSafe exKm exCls j
+         && jsValidFuel 2 (fixedPtrDefs exCls) exS (dialectFix (classSchemaM false exKm exCls)) (renameDoc exKm j)
+         && !jsValidFuel 2 (fixedPtrDefs exCls) exS (dialectFix (classSchemaM false exKm exCls)) j
+     | .error _ => false) = true := by decide
+
+def chainCls : FieldDecl := flat "K" ["a"] [("a", .integer {}), ("b", .integer {})]
+def chainKm : KeyMap := [("a", "b"), ("b", "c")]
+
+/-- finding `admits:mapper-required-renamed-in-place`: `_serialization_mapper = {"a": "b", "b": "c"}` with
+    only `a` required: the code renames `required` in place while it walks the fields, so `a`'s entry,
+    already renamed to `b`, is renamed again to `c` when field `b` comes: the schema requires `c` (the key
+    of the optional field) and not `b`; `K(a=1)` serializes to `{"b": 1}`, which the schema rejects -/
+theorem counterexample_mapper_required_in_place :
+    inSchemaFragment chainCls = true
+    ∧ inAdmitRegion anyO chainCls (.inst "K" [("a", .int 1)]) = true
+    ∧ requiredFaithful chainKm { name := "K", required := ["a"], accepts := ["K"] } [] ["a", "b"] = false
+    ∧ (match serialize anyO chainCls (.inst "K" [("a", .int 1)]) with
+       | .ok j => jsValidFuel 0 (fixedPtrDefs chainCls) anyS (dialectFix (classSchemaM false chainKm chainCls))
+                    (renameDoc chainKm j)
+       | .error _ => true) = false := by decide
 
 /-- finding `exact:positional-shorter`: positional `Tuple` / `Array` items carry no `minItems`, so
     a shorter array is admitted by the schema and rejected by the Deserializer -/
